@@ -97,8 +97,32 @@ def _func_of(dump, b):
     return None
 
 
+SIG_TAIL_THEN_INSERT = "code-inserted-at-the-end-of-a-block-left-without-successor-earlier-in-the-batch-misses-the-fallthrough"
+
+
 def c03_known(case, o, issue):
-    """recognise the recorded C03 findings (all about return edges) on the input"""
+    """recognise the recorded C03 findings on the input"""
+    if issue["kind"] == "fallthrough-missing":
+        # code is inserted at the end of a block that is not followed by code while, at that moment of the batch, the
+        # code in front of the insertion point has no successor: an earlier request removed the terminator, or an
+        # earlier insertion at that same end does not end in a jmp/ret
+        text = emodify.flat_of(case)
+        for i, x in enumerate(case.get("edits", [])):
+            d = text[x["block"]]
+            if x["op"] != "insert" or d["kind"] != "code" or not d["insns"] or x["off"] != emodify.block_size(d):
+                continue
+            size = emodify.block_size(d)
+            nxt = x["block"] + 1
+            if nxt < len(text) and text[nxt]["kind"] == "code" and text[nxt]["_sect"] == d["_sect"]:
+                continue
+            for k, y in enumerate(case["edits"]):
+                if y is x or y["block"] != x["block"]:
+                    continue
+                if y["op"] != "insert" and y["off"] + y["len"] == size and d["insns"][-1][0] in ("jmp", "ret"):
+                    return SIG_TAIL_THEN_INSERT
+                if y["op"] == "insert" and y["off"] == size and k < i and emodify._last_mnemonic(y.get("asm")) not in (None, "jmp", "ret"):
+                    return SIG_TAIL_THEN_INSERT
+        return None
     if not issue["kind"].startswith("return"):
         return None
     text = emodify.flat_of(case)
